@@ -105,4 +105,21 @@ func init() {
 			"request handler, HTTP clients, cobra flag parsing": "stub",
 		},
 	}
+	props["C16"] = &propCfg{
+		ID: "C16", Harness: "iso",
+		Quick:    tierCfg{Runs: 4000, Procs: 8, WallS: 900, Params: "shrinkcap=40"},
+		Thorough: tierCfg{Runs: 200000, Procs: 16, Seeds: 2, WallS: 3300, Params: "shrinkcap=40"},
+		Rule: "one evaluation = (two thirds of the runs, part A) a history P1;...;Pn;Q, n <= 4, played in ONE freshly exec'ed OS process (the long-lived REPL/server situation; each execution has its own simulated disk; the Interpreter object is reused or replaced per execution by a tape draw) with polluters Pi drawn from a catalogue generated from the actual global table (every mutating method name x every predefined value with 0-2 arguments, 如何新建X？ for every predefined value and for a registered library class, property assignment on every predefined value, declarations of global names and of names victims use, a program that dies inside nested calls, imports of every library, a file project whose module has the victim's module name but other content, a failing library call) and a victim Q from a fixed battery (reads of every predefined value, arithmetic on 数值, throw/catch, uncaught throw, JSON round trip, a file project importing a module, local names, a script importing a module, 新建异常, a library class); reference = Q alone in another freshly exec'ed process; (one third, part B) 2-4 simulated callers entering one ZnPlaygroundHandler / ZnHttpHandler with one shared interpreter under the seeded scheduler, pre-empted at every function entry of pkg/exec, pkg/runtime, pkg/server; oracles: every response equals the response of the same request served alone, and the lockset oracle over the T4 access records (package-level variables and fields of Zn struct types; same location, two caller tasks, at least one write, no common lock) reports nothing. distinct_nontrivial = distinct (polluter kind, victim) pairs and histories plus distinct interleavings of part B.",
+		Assume: []string{
+			"Go's race detector cannot be used under a controlled scheduler (gate hand-offs are happens-before edges); the T4 + lockset oracle replaces it and sees only accesses written as x.f / pkgvar in Zn's own packages, reached through a plain pointer variable",
+			"the caller tasks of part B never synchronise with each other, so any two conflicting accesses are concurrent",
+			"a divergence is minimised at scenario level (drop every polluter it does not need) before its signature is formed",
+		},
+		Components: map[string]string{
+			"pkg/exec, pkg/runtime, pkg/value, pkg/common, stdlib/json, stdlib/file, pkg/server handlers (ZnPlaygroundHandler, ZnHttpHandler)": "real code (transformed copy)",
+			"process restart": "real: every history and every reference runs in a newly exec'ed copy of the harness binary",
+			"net/http serve loop (goroutine per connection)": "stub: N simulator tasks call ServeHTTP on one handler",
+			"file system": "simulated disk",
+		},
+	}
 }
